@@ -357,8 +357,10 @@ class Run:
             "known_findings": self.known,
         }
         if not os.environ.get("VERIF_NOEVIDENCE"):
-            os.makedirs(os.path.join(VERIF, "evidence"), exist_ok=True)
-            with open(os.path.join(VERIF, "evidence", "%s.json" % self.prop), "w") as fh:
+            # checks of behaviour beyond the listed properties (ids X..) report under extras/, not evidence/
+            sub = "extras" if self.prop.startswith("X") else "evidence"
+            os.makedirs(os.path.join(VERIF, sub), exist_ok=True)
+            with open(os.path.join(VERIF, sub, "%s.json" % self.prop), "w") as fh:
                 json.dump(ev, fh, indent=1)
         shutil.rmtree(self.tmp, ignore_errors=True)
         log("%s %s seed=%s: %d violations, %d known findings, %.1fs" % (self.prop, self.tier, self.seed, len(self.violations), len(self.known), time.time() - self.t0))
